@@ -128,6 +128,64 @@ theorem pubkey_roundtrip (x y : F2)
 theorem identity_pubkey_not_roundtrip : byteToPublicKey (Pub.serialize (.pt .inf)) = .nil := by
   decide
 
+/-! ## parse targets that already hold a value -/
+
+/-- **FullStatement**: parsing into an object that already holds something gives what parsing the
+    same bytes into a fresh object gives (the object reflects the LAST bytes). -/
+def FullStatement_parse_target_reflects_last_bytes : Prop :=
+  ∀ (old : Sig) (b : Bytes), (Sig.deserialize old b).1 = deserializeSign b
+
+/-- False of model and code (known finding `stale-value-after-short-parse`): a 1-byte input leaves
+    the old, valid signature in place and the setter reports no error. -/
+theorem parse_target_reflects_last_bytes_counterexample :
+    ¬ FullStatement_parse_target_reflects_last_bytes := by
+  intro h
+  have := h (.pt g1Gen) [7]
+  have e1 : g1Unmarshal (.pt g1Gen) [7] = (.pt g1Gen, .short) := by rw [g1Unmarshal_def]; simp
+  have e2 : g1Unmarshal .nil [7] = (.nil, .short) := by rw [g1Unmarshal_def]; simp
+  simp [Sig.deserialize, deserializeSign, e1, e2] at this
+
+/-- **`parse_target_reflects_last_bytes_partial`**: for every input of at least 64 bytes — valid,
+    off-curve, anything — the old content of the receiver is irrelevant: `G1.Unmarshal`, and hence
+    `Signature.Deserialize` / `SetHexString`, overwrite it (an off-curve input leaves an INVALID
+    value, never the earlier one). -/
+theorem parse_target_reflects_last_bytes_partial (old : Sig) (b : Bytes) (h : 64 ≤ b.length) :
+    g1Unmarshal old b = g1Unmarshal .nil b ∧ (Sig.deserialize old b).1 = deserializeSign b := by
+  have hl : ¬ b.length < 64 := by omega
+  have e : g1Unmarshal old b = g1Unmarshal .nil b := by
+    rw [g1Unmarshal_def, g1Unmarshal_def, if_neg hl, if_neg hl]
+  refine ⟨e, ?_⟩
+  have hne : ¬ (b.length == 0) = true := by
+    intro h0
+    have : b.length = 0 := by simpa using h0
+    omega
+  simp [Sig.deserialize, deserializeSign, hne, e]
+
+example : (64 : Nat) ≤ (g1Marshal g1Gen).length := by rw [g1_marshal_length]
+
+/-- The same for public keys: at least 128 bytes overwrite the receiver whatever it held. -/
+theorem pubkey_parse_target_reflects_last_bytes (old : Pub) (b : Bytes) (h : 128 ≤ b.length) :
+    g2Unmarshal old b = g2Unmarshal .nil b := by
+  have hl : ¬ b.length < 128 := by omega
+  rw [g2Unmarshal_def, g2Unmarshal_def, if_neg hl, if_neg hl]
+
+/-- A 128-byte encoding is never read as the identity because of its FIRST byte alone: the
+    identity needs all four coordinates ≡ 0 (there is no tag byte in this format). -/
+theorem g2_unmarshal_identity_iff (b : Bytes) (h : 128 ≤ b.length) :
+    (g2Unmarshal .nil b).1 = .pt .inf ↔
+      (beToNat (slice b 0) % P = 0 ∧ beToNat (slice b 1) % P = 0 ∧
+       beToNat (slice b 2) % P = 0 ∧ beToNat (slice b 3) % P = 0) := by
+  have hl : ¬ b.length < 128 := by omega
+  rw [g2Unmarshal_def, if_neg hl]
+  simp only [F2.isZero, Bool.and_eq_true, beq_iff_eq]
+  constructor
+  · intro hh
+    split at hh
+    · next hz => exact ⟨hz.1.1, hz.1.2, hz.2.1, hz.2.2⟩
+    · split at hh <;> simp at hh
+  · rintro ⟨h0, h1, h2, h3⟩
+    simp [h0, h1, h2, h3]
+
 /-! ## hash to G1 -/
 
 /-- Whatever try-and-increment returns is a reduced point on the curve (so `HashToPoint`'s
